@@ -954,6 +954,80 @@ def gen_flow():
     emit(f"Definition gen_flow_read_axes : axes := {up[r_axes]}.")
 
 
+# =================================================================================================
+# F. suffix-based dispatch of read_image / write_image (utils/imageio/__init__.py, and the .mhd / nibabel-less
+#    delegation inside meta.py / nifti.py)
+# =================================================================================================
+def gen_dispatch():
+    import deepali.utils.imageio as IO
+    import deepali.utils.imageio.sitk as SKM
+    emit("(* ---- which backend write_image / read_image (and Image.write / Image.read through them) use per file name suffix ---- *)")
+    suffixes = [".mha", ".mhd", ".nii", ".nii.gz", ".nrrd", ".MHA", ".Mhd", ".NII.GZ", ".nia", ".hdr", ".img", ".img.gz", ".hdr.gz",
+                ".png", ".tif", ".vtk", ".nhdr", ".dcm"]
+    hit = {}
+
+    def rec(tag, ret):
+        def f(*a, **k):
+            hit["b"] = tag
+            return ret
+        return f
+    saved = (M.read_meta_image_from_fileobj, M.meta_image_bytes, M.StorageObject, NI.nib, NI.StorageObject, NI.unlink_or_mkdir,
+             SKM._read_image, SKM._write_image, SKM.tensor_from_image, SKM.image_from_tensor, SKM.Grid)
+
+    class P:   # pathlib-free file stand-in for the .mha reader
+        pass
+    rows = []
+    real_np = NI.np
+    try:
+        M.meta_image_bytes = rec("BMeta", b"")
+        M.StorageObject = FakeStorage
+        NI.StorageObject, NI.unlink_or_mkdir = FakeStorage, (lambda p: p)
+        real_np, NI.np = NI.np, NpObj()      # symbolic grid attributes are written into constant matrices
+
+        class NibW:
+            Nifti1Image = staticmethod(lambda *a, **k: hit.update(b="BNifti"))
+            save = staticmethod(lambda *a, **k: None)
+            load = staticmethod(lambda *a, **k: (_ for _ in ()).throw(_Stop("BNifti")))
+        NI.nib = NibW
+        SKM._write_image = rec("BSitk", None)
+        SKM.image_from_tensor = lambda *a, **k: None
+        SKM._read_image = lambda *a, **k: (_ for _ in ()).throw(_Stop("BSitk"))
+
+        class St(FakeStorage):
+            def read_bytes(self):
+                raise _Stop("BMeta")
+        for suf in suffixes:
+            w = r = "BNone"
+            hit.clear()
+            try:
+                IO.write_image(coded((1, 2, 2, 3)), FakeGrid(3, [3, 2, 2]), "file" + suf, compress=True)
+                w = hit.get("b", "BNone")
+            except _Stop as e:
+                w = e.tag
+            except Exception:  # noqa
+                w = hit.get("b", "BError")
+            M.StorageObject = St
+            try:
+                IO.read_image("file" + suf)
+            except _Stop as e:
+                r = e.tag
+            except Exception:  # noqa
+                r = "BError"
+            finally:
+                M.StorageObject = FakeStorage
+            rows.append(f"(\"{suf}\"%string, ({w}, {r}))")
+    finally:
+        NI.np = real_np
+        (M.read_meta_image_from_fileobj, M.meta_image_bytes, M.StorageObject, NI.nib, NI.StorageObject, NI.unlink_or_mkdir,
+         SKM._read_image, SKM._write_image, SKM.tensor_from_image, SKM.image_from_tensor, SKM.Grid) = saved
+    emit("Definition gen_dispatch : list (string * (backend * backend)) :=\n  " + coq_list(rows) + ".")
+
+
+class _Stop(Exception):
+    def __init__(self, tag):
+        self.tag = tag
+
+
 def main():
     emit("From DV Require Import Model.CodecTypes.")
     emit("Section Gen.\nContext {K : fld}.\n")
@@ -962,6 +1036,7 @@ def main():
     gen_nifti()
     gen_sitk()
     gen_flow()
+    gen_dispatch()
     emit("End Gen.")
     sys.stdout.write("\n##COQ##\n" + "\n".join(out) + "\n")
 
